@@ -434,10 +434,16 @@ impl RdbEngine {
                 // Write each key-value pair
                 for key in keys {
                     // Get value
+                    #[cfg(ferrous_verif)]
+                    crate::verif::sync_point("rdb_before_get");
                     match storage.get(db_idx, &key)? {
                         GetResult::Found(value) => {
+                            #[cfg(ferrous_verif)]
+                            crate::verif::sync_point("rdb_after_get");
                             // Get TTL if any
                             let ttl = storage.ttl(db_idx, &key)?;
+                            #[cfg(ferrous_verif)]
+                            crate::verif::sync_point("rdb_after_ttl");
                             
                             // Write key-value pair
                             writer.write_key_value(&key, &value, ttl)?;
@@ -568,6 +574,9 @@ impl<W: Write> RdbWriter<W> {
                 let len = skiplist.len();
                 self.write_length(len)?;
                 
+                #[cfg(ferrous_verif)]
+                crate::verif::sync_point("rdb_zset_after_len");
+                
                 // Note: This is a suboptimal approach since we need to materialize
                 // all members in memory. A better approach would be to have a streaming
                 // iterator in the SkipList implementation.
@@ -682,6 +691,10 @@ impl<W: Write> RdbWriter<W> {
     
     /// Write raw bytes
     fn write_raw(&mut self, data: &[u8]) -> io::Result<()> {
+        #[cfg(ferrous_verif)]
+        if crate::verif::rdb_write_should_fail() {
+            return Err(io::Error::new(io::ErrorKind::Other, "verif: injected write failure"));
+        }
         self.writer.write_all(data)?;
         self.bytes_written += data.len() as u64;
         // Update CRC (simplified - real implementation would use CRC64)
